@@ -59,12 +59,34 @@ class C03(Prop):
                 if conns:
                     c["s"]["mac"] = conns[0]["s"]["mac"]
                 conns.append(c)
-            spec = {"conns": conns, "tap": gen.gen_tap(R.fork("tap")), "policy": pol, "shared_server": True}
+            spec = {"conns": conns, "tap": gen.gen_tap(R.fork("tap")), "policy": "concurrent", "shared_server": True}
+            # the other flows start when flow 0 has just finished its handshake and keeps talking
+            ex = world.expand({"conns": [conns[0]], "tap": spec["tap"]})
+            t_hs = None
+            t0 = ex["truth"]["conns"][0]
+            for e in ex["taplog"]:
+                if "ctl" in e:
+                    continue
+                if conns[0]["proto"] == "quic":
+                    kinds = set(p["kind"] for p in t0["dmeta"][e["dg"]]["pk"])
+                    if kinds == {"1rtt"} and any(m["n"] == "StreamFrame" for p in t0["dmeta"][e["dg"]]["pk"] for m in p["frames"]):
+                        t_hs = e["t"]
+                        break
+                else:
+                    if any(r["kind"] == "app" and r["d"] == e["d"] and r["lo"] < e["hi"] and r["hi"] > e["lo"] for r in t0["records"]):
+                        t_hs = e["t"]
+                        break
+            if t_hs is not None:
+                for c in conns[1:]:
+                    c["t"]["start_us"] = max(0, t_hs // 1000 - 50 + R.range(0, 400))
+                spec["force_victim"] = conns[0]["id"]
         else:
             spec = gen.gen_mixed_world(R.fork("world"), cfg, nconn=R.range(2, 4))
         spec["prop"] = "C03"
         spec["tier"] = tier
         spec["victim"] = spec["conns"][R.below(len(spec["conns"]))]["id"]
+        if spec.get("force_victim") is not None and R.chance(70):
+            spec["victim"] = spec["force_victim"]
         if R.chance(45):
             from .base import random_cli
             spec["cli"] = random_cli(R.fork("cli"), spec["conns"], allow=("a", "m", "g", "c"))
@@ -101,7 +123,19 @@ class C03(Prop):
             faults.append(("drop", {"k": "drop", "i": i}))
         for i in sorted(set(pick(list(range(0, n + 1)), 3) + [x + 1 for x in firsts[:2]])):
             faults.append(("cut", {"k": "cut", "i": i}))
-        for i in sorted(set(pick(list(range(0, n + 1)), 4) + [x + 1 for x in firsts[:3]])):
+        vtruth = [c for c in ex["truth"]["conns"] if c["id"] == vid][0]
+        first_app = []
+        for i in vidx:
+            e = tl[i]
+            if vconn["proto"] == "quic":
+                if set(p["kind"] for p in vtruth["dmeta"][e["dg"]]["pk"]) == {"1rtt"} and \
+                        any(m["n"] == "StreamFrame" for p in vtruth["dmeta"][e["dg"]]["pk"] for m in p["frames"]):
+                    first_app.append(i)
+                    break
+            elif any(r["kind"] == "app" and r["d"] == e["d"] and r["lo"] < e["hi"] and r["hi"] > e["lo"] for r in vtruth["records"]):
+                first_app.append(i)
+                break
+        for i in sorted(set(pick(list(range(0, n + 1)), 4) + [x + 1 for x in firsts[:3]] + first_app + [x + 1 for x in first_app])):
             faults.append(("late", {"k": "late", "i": i}))
         for i in pick(vidx, 6):
             e = tl[i]
